@@ -19,6 +19,7 @@ type IntsBuilder struct {
 	FinalAppsMap syslutil.StrSet
 	Deps         syslutil.StrSet
 	DepsOut      []AppDependency
+	walked       syslutil.StrSet
 }
 
 func sortedSlice(endpts map[string]*sysl.Endpoint) []string {
@@ -138,6 +139,15 @@ func (b *IntsBuilder) MyCallers(sourceApp, epname string, t *sysl.Statement) {
 
 func (b *IntsBuilder) WalkPassthrough(appname, epname string) {
 	if b.Passthroughs.Contains(appname) {
+		// walk each pass-through endpoint once: pass-through applications may call each other in a cycle
+		key := appname + " <- " + epname
+		if b.walked == nil {
+			b.walked = syslutil.StrSet{}
+		}
+		if b.walked.Contains(key) {
+			return
+		}
+		b.walked.Insert(key)
 		endpt := b.M.GetApps()[appname].GetEndpoints()[epname]
 		ProcessCalls(appname, epname, endpt.GetStmt(), b.ProcessExcludeAndPassthrough)
 	}
